@@ -1,0 +1,40 @@
+//go:build verif
+
+// Contracts for package discovery, read by /verif's govc (comment-only; no declarations).
+
+package discovery
+
+//@ func encodeTagAndMembershipList
+//@   props C13 C10
+//@   requires len(tag) == 32
+//@   requires msgTypeMembership <= msgType && msgType <= msgTypeResponse
+//@   ensures [shape]  len(result) == 33 + 2*len(peers) && result[0] == byte(msgType)
+//@   ensures [tag]    forall j int :: 0 <= j && j < 32 ==> result[1+j] == tag[j]
+//@   ensures [peers]  forall i int :: 0 <= i && i < len(peers) ==>
+//@                      result[33+2*i] == byte(peers[i]) && result[34+2*i] == byte(peers[i] >> 8)
+//@   loop 0: invariant [offset] offset == 33 + 2*(rangeindex+1)
+//@   loop 0: invariant [head]   buff[0] == byte(msgType) && forall j int :: 0 <= j && j < 32 ==> buff[1+j] == tag[j]
+//@   loop 0: invariant [done]   forall k int :: 0 <= k && k <= rangeindex ==>
+//@                      buff[33+2*k] == byte(peers[k]) && buff[34+2*k] == byte(peers[k] >> 8)
+//@
+//@ func decodeTagAndMembershipList
+//@   props C13 C10
+//@   ensures [len]   result.3 == nil ==> len(msg) >= 33 && (len(msg)-33) % 2 == 0
+//@   ensures [type]  result.3 == nil ==> result.0 == msgType(msg[0]) && msgTypeMembership <= result.0 && result.0 <= msgTypeResponse
+//@   ensures [tag]   result.3 == nil ==> len(result.1) == 32 && forall j int :: 0 <= j && j < 32 ==> result.1[j] == msg[1+j]
+//@   ensures [peers] result.3 == nil ==> len(result.2) == (len(msg)-33)/2 &&
+//@                     forall i int :: 0 <= i && i < len(result.2) ==>
+//@                       result.2[i] == uint16(msg[33+2*i]) + 256*uint16(msg[34+2*i])
+//@   loop 0: invariant [offset] 33 <= offset && (offset-33) % 2 == 0 && len(peers) == (offset-33)/2 && offset <= len(msg) + 1
+//@   loop 0: invariant [done]   forall i int :: 0 <= i && i < len(peers) ==>
+//@                       peers[i] == uint16(msg[33+2*i]) + 256*uint16(msg[34+2*i])
+//@
+//@ lemma syncRoundTrip(t msgType, tg tag, p []uint16)
+//@   props C13
+//@   requires len(tg) == 32 && msgTypeMembership <= t && t <= msgTypeResponse
+//@   let m = encodeTagAndMembershipList(t, tg, p)
+//@   let t2, tg2, p2, err = decodeTagAndMembershipList(m)
+//@   assert [noerr] err == nil
+//@   assert [type]  t2 == t
+//@   assert [tag]   tg2 == tg
+//@   assert [peers] len(p2) == len(p) && forall i int :: 0 <= i && i < len(p) ==> p2[i] == p[i]
